@@ -36,7 +36,7 @@ def first_self_write(stmts):
     return len(stmts)
 
 
-def assert_stmts(stmts):
+def assert_stmts(stmts, facts=None, depth=0):
     out = []
     for i, s in enumerate(stmts):
         e = s.get("e") or s.get("init")
@@ -48,10 +48,22 @@ def assert_stmts(stmts):
             m = x.get("mac") or []
             if any(t in ("assert", "assert_eq") for t in m):
                 n[0] += 1
+            # a private helper of the crate that performs the check counts as the check (two levels)
+            if facts is not None and depth < 2 and x.get("k") == "call" and x.get("callee"):
+                c = x["callee"]
+                fn = facts.fns.get(c.get("res") or c.get("def"))
+                if fn is not None and fn.get("body") and fn["body"].get("stmts") is not None:
+                    if assert_stmts(fn["body"]["stmts"], facts, depth + 1) or _tail_asserts(fn["body"], facts, depth + 1):
+                        n[0] += 1
         walk(e, v)
         if n[0]:
             out.append((i, n[0]))
     return out
+
+
+def _tail_asserts(body, facts, depth):
+    t = body.get("tail")
+    return bool(t) and bool(assert_stmts([{"e": t}], facts, depth))
 
 
 def pushes(e):
@@ -112,7 +124,7 @@ def run(facts, serde_facts, tier):
     for nm, fn in (("delete_edges", de), ("delete_nodes_witness", dn)):
         stmts = fn["body"]["stmts"]
         fw = first_self_write(stmts)
-        asr = assert_stmts(stmts)
+        asr = assert_stmts(stmts, facts)
         bounds = [i for (i, n) in asr]
         ok = bool(bounds) and all(i < fw for i in bounds)
         add(f"GUARD {nm}: identifiers are range-checked before any write to *self", fn, ok,
